@@ -50,7 +50,13 @@ where
     match build_report {
         BuildTerminationReport::Cancelled => Ok(IncrementalRunResult::Cancelled),
         BuildTerminationReport::Completed => {
-            match TargetEnvState::after_build(input_state_before_build, target_output).await {
+            match TargetEnvState::after_build(
+                input_state_before_build,
+                target_input,
+                target_output,
+            )
+            .await
+            {
                 Ok(Some(env_state)) => {
                     if let Err(e) = storage::save_env_state(target, env_state).await {
                         log::warn!(
@@ -95,16 +101,22 @@ pub struct TargetEnvState {
 
 impl TargetEnvState {
     /// State to record after a successful build: the inputs as they were when the build
-    /// started, the outputs as they are now.
+    /// started, the outputs as they are now - also where an output lies among the inputs
+    /// (e.g. `paths: [.]`): what the build itself wrote there is not a change to rebuild for.
     async fn after_build(
         input_state_before_build: Result<Option<ResourcesState>>,
+        target_input: &Resources,
         target_output: Option<&Resources>,
     ) -> Result<Option<Self>> {
         match input_state_before_build? {
             None => Ok(None),
-            Some(input) => {
+            Some(mut input) => {
                 let output = match target_output {
-                    Some(target_output) => Some(ResourcesState::current(target_output).await?),
+                    Some(target_output) => {
+                        let output = ResourcesState::current(target_output).await?;
+                        input.adopt_files(target_input, &output).await;
+                        Some(output)
+                    }
                     None => None,
                 };
 
